@@ -400,6 +400,11 @@ def run(chk):
     from ..alg import lift
 
     def slice_of(batch, what):
+        if isinstance(batch, Sym) and batch.op == 'take' and not any(isinstance(a, tuple) and a and a[0] == 'mode' for a in batch.args):
+            # gathering rows start + arange(b) with jnp.take's DEFAULT out-of-bounds mode ("fill"): when the window passes the end of
+            # the store (batch size not dividing the number of rows) the missing rows are NaN, where dynamic_slice shifts the window
+            raise Violation("batch rows", f"{what}: rows gathered with jnp.take in its default out-of-bounds mode (rows past the end of "
+                            f"the store are filled with NaN): {str(batch)[:160]}", "a window of the store clamped to its end (dynamic_slice)")
         if not (isinstance(batch, Sym) and batch.op == 'dynamic_slice'):
             raise Inconclusive(f"{what}: batch is not a dynamic_slice term: {batch}")
         return batch.args
